@@ -32,6 +32,14 @@ def _ew(fn):
             return Opaque("ufunc(unknown)")
         if kw:
             raise EngineError(f"numpy ufunc keyword {list(kw)}")
+        if any(isinstance(a, Rows) for a in args) and out is None and where is None:
+            n = len(next(a for a in args if isinstance(a, Rows)).rows)
+            return Rows([f(it, *[(a.rows[k] if isinstance(a, Rows) else a) for a in args]) for k in range(n)])
+        if any(isinstance(a, SmallMat) for a in args) and out is None and where is None:
+            m = next(a for a in args if isinstance(a, SmallMat))
+            ex = lambda v: SV(z3.RealVal(v)) if isinstance(v, int) and not isinstance(v, bool) else v     # exact arithmetic on integer entries
+            return SmallMat([[fn(it, *[ex(a.rows[i][j] if isinstance(a, SmallMat) else a) for a in args]) for j in range(len(m.rows[i]))]
+                             for i in range(len(m.rows))])
         r = elementwise(it, lambda *xs: fn(it, *xs), *args)
         if out is not None or where is not None:
             if where is None:
@@ -245,6 +253,11 @@ def make_numpy(it):
             return Opaque("np.array([x] * n)")
         if is_scalar(x):
             return astype(it, x, dtype) if dtype is not None else x
+        if isinstance(x, (Rows, SmallMat)):
+            return x
+        if isinstance(x, (list, tuple)) and x and all(isinstance(r, (list, tuple)) for r in x) and len({len(r) for r in x}) == 1 and \
+                any(is_sym(e) for r in x for e in r):
+            return SmallMat(x)
         if isinstance(x, (list, tuple)):
             if getattr(it, "lenient_numpy", False):
                 return Opaque("np.array([...])")
@@ -367,6 +380,7 @@ def make_numpy(it):
         "isclose": nat(lambda it, a, b, **k: elementwise(it, lambda x, y: s_isclose(it, x, y, **k), a, b), name="isclose"),
         "allclose": nat(lambda it, a, b, **k: np_all(it, elementwise(it, lambda x, y: s_isclose(it, x, y, **k), a, b)), name="allclose"),
         "power": nat(_ew(s_power), name="power"),
+        "matmul": nat(np_matmul, name="matmul"),
         "multiply": nat(_ew(lambda it, a, b: it.binop("*", a, b)), name="multiply"),
         "divide": nat(_ew(lambda it, a, b: it.binop("/", a, b)), name="divide"),
         "add": nat(_ew(lambda it, a, b: it.binop("+", a, b)), name="add"),
@@ -441,6 +455,66 @@ class Rows:
     def __init__(self, rows):
         self.rows = list(rows)
 
+    def sym_binop(self, it, op, a, b):
+        if isinstance(a, Rows) and isinstance(b, Rows):
+            if len(a.rows) != len(b.rows):
+                raise PyRaise(ValueError("operands could not be broadcast together"))
+            return Rows([it.binop(op, x, y) for x, y in zip(a.rows, b.rows)])
+        if isinstance(a, Rows) and is_scalar(b):
+            return Rows([it.binop(op, x, b) for x in a.rows])
+        if isinstance(b, Rows) and is_scalar(a):
+            return Rows([it.binop(op, a, y) for y in b.rows])
+        return NotImplemented
+
+    def sym_getitem(self, it, key):
+        if isinstance(key, tuple) and len(key) == 2 and isinstance(key[0], int) and isinstance(key[1], slice) and key[1] == slice(None, None, None):
+            return self.rows[key[0]]
+        if isinstance(key, int):
+            return self.rows[key]
+        if isinstance(key, tuple) and len(key) == 2 and isinstance(key[0], slice) and key[0] == slice(None, None, None):
+            return Rows([it.getitem(r, key[1]) for r in self.rows])
+        raise EngineError("index into stacked rows")
+
+
+class SmallMat:
+    """np.array([[...], [...]]) of (symbolic) scalars: a small constant-shape matrix"""
+
+    def __init__(self, rows):
+        self.rows = [list(r) for r in rows]
+
+    def sym_binop(self, it, op, a, b):
+        if isinstance(a, SmallMat) and is_scalar(b):
+            return SmallMat([[it.binop(op, x, b) for x in r] for r in a.rows])
+        if isinstance(b, SmallMat) and is_scalar(a):
+            return SmallMat([[it.binop(op, a, y) for y in r] for r in b.rows])
+        return NotImplemented
+
+
+def np_matmul(it, m, x):
+    if isinstance(m, SmallMat) and isinstance(x, Rows):
+        if any(len(r) != len(x.rows) for r in m.rows):
+            raise PyRaise(ValueError("matmul: shapes do not match"))
+        out = []
+        for r in m.rows:
+            acc = None
+            for c, row in zip(r, x.rows):
+                term = it.binop("*", c, row)
+                acc = term if acc is None else it.binop("+", acc, term)
+            out.append(acc)
+        return Rows(out)
+    if isinstance(m, SmallMat) and isinstance(x, SmallMat):
+        cols = list(zip(*x.rows))
+        return SmallMat([[_dot(it, r, c) for c in cols] for r in m.rows])
+    raise EngineError("np.matmul outside the small-matrix fragment")
+
+
+def _dot(it, r, c):
+    acc = None
+    for a, b in zip(r, c):
+        t = it.binop("*", a, b)
+        acc = t if acc is None else it.binop("+", acc, t)
+    return acc
+
 
 def _reduce2d(it, x, axis, fn, name):
     if isinstance(x, Cols) and axis == 1:
@@ -453,6 +527,10 @@ def _reduce2d(it, x, axis, fn, name):
 def rows_attr(it, r, name):
     if name == "T":
         return Cols(r.rows)
+    if name in ("real", "imag"):
+        return Rows([it.getattr(x, name) for x in r.rows])
+    if name in ("conjugate", "conj"):
+        return Native(lambda it: Rows([it.call(it.getattr(x, name), [], {}) for x in r.rows]), name=name)
     raise EngineError(f"vstack(...).{name}")
 
 
